@@ -200,12 +200,15 @@ def toSMF0 (srt : List TEv → List TEv) (s : Song) : Option File :=
 /-- `fmt.Sprintf("track-%v", trackno)` -/
 def defaultName (n : Nat) : Bytes := [0x74, 0x72, 0x61, 0x63, 0x6B, 0x2D] ++ (Nat.repr n).toList.map Char.toNat
 
+/-- `name := fmt.Sprintf("track-%v", trackno); if len(s.TrackNames) > trackno { name = s.TrackNames[trackno] }` -/
+def trackName (names : List Bytes) (n : Nat) : Bytes :=
+  match names[n]? with
+  | some nm => nm
+  | none => defaultName n
+
 /-- the body of `for _, trackno := range tracks` -/
 def eventTrack (names : List Bytes) (lastTick : Nat) (sorted : List TEv) (n : Nat) : Track :=
-  let name := match names[n]? with      -- `if len(s.TrackNames) > trackno`
-    | some nm => nm
-    | none => defaultName n
-  let r := addTrackNo n (Track.add [] 0 [metaSeqName name]) 0 sorted
+  let r := addTrackNo n (Track.add [] 0 [metaSeqName (trackName names n)]) 0 sorted
   r.1.close (u32sub lastTick r.2)
 
 /-- `Song.ToSMF1()`; `none` = panic -/
